@@ -56,6 +56,7 @@ func plan(prop, tier string) []Part {
 		return []Part{
 			{Name: "mixed", N: q(tier, 800, 16000), Chunk: 40, Procs: []int{2, 16, 4, 1}, Timeout: to},
 			{Name: "err", N: q(tier, 200, 4000), Chunk: 40, Procs: []int{2, 16, 4, 1}, Timeout: to},
+			{Name: "lines", N: q(tier, 200, 4000), Chunk: 40, Procs: []int{2, 16, 4, 1}, Timeout: to},
 		}
 	case "C14":
 		return []Part{
